@@ -57,6 +57,8 @@ type CtWorld struct {
 	ValStr     [2]string
 	Methods    []Method
 	nonce      int64
+	Extra      map[string]*chain.Acct // extra named contracts (C03 sibling frame)
+	all        []*chain.Acct
 	excl       [][]byte // excluded key prefixes (store name + ":" + key prefix)
 	exclSuffix [][]byte // bank denom-owner index entries (0x03 | denom | 0 | len | address) of these addresses
 }
@@ -109,8 +111,12 @@ func ListMethods(c *chain.Chain) []Method {
 // staking precompile through the real deployment message (3 decimals, so that the reward threshold of
 // withdrawRewards is 1 unit), 16 funded forwarding contracts at keyed addresses, each with a delegation
 // to validator 0 (native MsgDelegate signed by its key) and an ERC-20 allowance from Owner.
-func NewCtWorld(depth int) *CtWorld {
-	w := &CtWorld{Fwd: make([]map[string]*chain.Acct, depth)}
+func NewCtWorld(depth int) *CtWorld { return NewCtWorldWith(depth, Kinds, Forwarder, nil) }
+
+// NewCtWorldWith is NewCtWorld with the forwarding contracts' kinds and code chosen by the caller, plus
+// extra named contracts (funded, delegating and approved like the forwarders).
+func NewCtWorldWith(depth int, kinds []string, code func(kind string) []byte, extra map[string][]byte) *CtWorld {
+	w := &CtWorld{Fwd: make([]map[string]*chain.Acct, depth), Extra: map[string]*chain.Acct{}}
 	o := chain.DefaultOpts()
 	o.NAccts = 4
 	o.NVals = 2
@@ -123,11 +129,23 @@ func NewCtWorld(depth int) *CtWorld {
 	o.ExtraBals = append(o.ExtraBals, banktypes.Balance{Address: w.Sender.Acc().String(), Coins: sdk.NewCoins(sdk.NewInt64Coin(chain.Denom, 4_000_000_000_000_000_000))})
 	for lvl := 0; lvl < depth; lvl++ {
 		w.Fwd[lvl] = map[string]*chain.Acct{}
-		for _, k := range Kinds {
+		for _, k := range kinds {
 			a := chain.NewAcct(fmt.Sprintf("ct-fwd-%d-%s", lvl, k))
 			w.Fwd[lvl][k] = a
-			o.Contracts = append(o.Contracts, chain.GenContract{Addr: a.Addr, Code: Forwarder(k), Bal: 50_000_000, Bal2: 100_000})
+			w.all = append(w.all, a)
+			o.Contracts = append(o.Contracts, chain.GenContract{Addr: a.Addr, Code: code(k), Bal: 50_000_000, Bal2: 100_000})
 		}
+	}
+	var names []string
+	for n := range extra {
+		names = append(names, n)
+	}
+	sort.Strings(names)
+	for _, n := range names {
+		a := chain.NewAcct("ct-extra-" + n)
+		w.Extra[n] = a
+		w.all = append(w.all, a)
+		o.Contracts = append(o.Contracts, chain.GenContract{Addr: a.Addr, Code: extra[n], Bal: 50_000_000, Bal2: 100_000})
 	}
 	o.Patch = func(enc params.EncodingConfig, gs chainapp.GenesisState) {
 		var sg stakingtypes.GenesisState
@@ -156,9 +174,8 @@ func NewCtWorld(depth int) *CtWorld {
 		must("validator address", err == nil, err)
 		w.ValStr[i] = s
 	}
-	for lvl := 0; lvl < depth; lvl++ {
-		for _, k := range Kinds {
-			f := w.Fwd[lvl][k]
+	{
+		for _, f := range w.all {
 			res, adm, err := SendCosmos(c, f, 400000, stakingtypes.NewMsgDelegate(f.Acc().String(), w.ValStr[0], sdk.NewCoin(chain.Denom, sdkmath.NewInt(100_000))))
 			must("delegation of "+f.Name, err == nil && adm && res.Code == 0, res)
 			r := SendEth(c, w.Owner, w.Erc20, Enc("approve(address,uint256)", AddrWord(f.Addr), Word(big.NewInt(1_000_000_000))), 200000)
